@@ -11,7 +11,7 @@ import prop_c03
 LEVEL = "exploration"
 RULE = ("Hypothesis cases: a GDSII file from one of two sources - a layoutgen library written by write_gds, or an abstract "
         "layout serialised by my own encoder (pbt/gdsref.py) with non-default choice points - plus a tag filter set (present "
-        "tags, absent tags, mixtures; never the empty set), a target unit, a subset of cells taken as raw cells and a new "
+        "tags, absent tags, mixtures, the empty set), a target unit, a subset of cells taken as raw cells and a new "
         "timestamp. Differential oracle with the full load as reference (Python does the bookkeeping): gds_info (cell names "
         "in file order, element counts, tag sets, unit/precision) vs dump(read_gds) and vs my strict decoder; gds_units and "
         "gds_timestamp(read) vs the full load / the decoded BGNLIB; read_gds with a filter = full load minus polygons and "
@@ -20,7 +20,8 @@ RULE = ("Hypothesis cases: a GDSII file from one of two sources - a layoutgen li
         "and their structure bytes are identical; gds_timestamp(write) changes only the 24 data bytes of BGNLIB and each "
         "BGNSTR. Non-trivial: >= 2 cells and >= 3 element kinds, a filter that removes some but not all shapes, a target "
         "unit different from the file unit; distinct by case hash")
-ASSUMPTIONS = ["an empty non-NULL filter set is not generated (header says 'no filter', code keeps nothing: ambiguous)",
+ASSUMPTIONS = ["an empty non-NULL filter set keeps no shape: the statement quantifies over all filter sets and the Python documentation "
+               "says 'if not None, only shapes in the set'; the C++ header comment 'if shape_tags is not empty' is the looser wording",
                "pbt/gdsref.py decodes BGNLIB/BGNSTR and structure byte ranges"]
 
 
@@ -60,7 +61,8 @@ def case_strategy(draw):
             filt.add(t)
     for _ in range(draw(st.integers(0, 2))):
         filt.add((draw(st.sampled_from([0, 1, 63, 256, 9999])), draw(st.sampled_from([0, 5, 255]))))
-    if not filt:
+    if not filt and draw(st.integers(0, 2)) != 0:
+        # (one time in three the set stays empty: "for all tag filter sets" - every shape is of another tag and is discarded)
         filt.add(present[0] if present and draw(st.booleans()) else (9999, 255))
     c["filter"] = [list(t) for t in sorted(filt)]
     c["target_unit"] = draw(st.sampled_from([1e-6, 1e-9, 1e-3, 3.7e-7, 2.5e-6]))
